@@ -134,6 +134,35 @@ def reduction(ctx):
     ok_m = mons.get('_stepmon') == ('sub', scan, T.num(0)) and mons.get('_evalmon') == ('sub', scan, T.num(1))
     ctx.check(ok_m, '__update_state#monitors', 'monitors are the two results of the best-member scan, in order (step, evaluation)',
               'monitors handed back as %s' % {k: T.show(v)[:50] for k, v in mons.items()}, g, g.node)
+    # every path hands back, except the one on which the scan found nothing (both results None): a "nothing changed" shortcut
+    # would keep a stale bestEnergy while the member that stays best goes on improving (the arrays are shared, the scalar is not)
+    def relh(n):
+        return isinstance(n, ast.Assign)
+    hp = [p for p in enumerate_paths(g.node, relevant=relh, unroll=(0, 1)) if p.exit != 'raise']
+    ctx.stats['paths_enumerated'] += len(hp)
+    badp = None
+    for p in hp:
+        b2 = T.Builder()
+        handed = set()
+        nothing = False
+        for e in p.events:
+            if e[0] == 'cond':
+                c = T.simp(b2.t(e[1]))
+                parts = list(c[1:]) if c[0] == 'and' else [c]
+                isnone = [x for x in parts if x[0] == 'cmp' and x[1] == 'is' and ('const', None) in x[2:] and any(y in x[2:] for y in (('sub', scan, T.num(0)), ('sub', scan, T.num(1))))]
+                if e[2] and isnone:
+                    nothing = True
+            elif e[0] == 'stmt' and isinstance(e[1], ast.Assign):
+                st = e[1]
+                if len(st.targets) == 1 and is_self_attr(st.targets[0], None, sn):
+                    handed.add(st.targets[0].attr)
+                else:
+                    b2.exec_stmt(st)
+        if not (need <= handed) and not nothing:
+            badp = p
+    ctx.check(badp is None, '__update_state#always', 'every path hands the best member\'s state back unless the scan found no member (%d paths)' % len(hp),
+              '__update_state returns without handing back %s on path %s although a best member was found: bestEnergy goes stale while that member keeps improving'
+              % (sorted(need), badp.describe(5) if badp else ''), g, badp.exit_node if badp is not None and badp.exit_node is not None else g.node)
     # the scan returns (step monitor, evaluation monitor) of the member it kept
     h = r['f']
     rts = return_terms(h.node)
